@@ -172,6 +172,44 @@ func c10Callables() []c10Callable {
 			return func(a py.Tuple, k py.StringDict) (py.Object, error) { return py.Call(f, a, k) }, true
 		}, riskyName(n)})
 	}
+	// the functions of the Go modules of the standard library (not os/tempfile: they act on the host's file system; not time.sleep)
+	for _, mname := range []string{"math", "string", "binascii", "array", "marshal", "glob", "time", "sys"} {
+		mname := mname
+		if err := py.Import(ctx, mname); err != nil {
+			continue
+		}
+		m, err := ctx.GetModule(mname)
+		if err != nil {
+			continue
+		}
+		var fnames []string
+		for n, o := range m.Globals {
+			if _, ok := o.(py.I__call__); ok {
+				fnames = append(fnames, n)
+			}
+		}
+		sort.Strings(fnames)
+		for _, n := range fnames {
+			n := n
+			if (mname == "time" && n == "sleep") || (mname == "sys" && n == "exit") {
+				continue
+			}
+			out = append(out, c10Callable{mname + "." + n, func(ctx py.Context, _ []c10Val) (func(py.Tuple, py.StringDict) (py.Object, error), bool) {
+				if err := py.Import(ctx, mname); err != nil {
+					return nil, false
+				}
+				m, err := ctx.GetModule(mname)
+				if err != nil {
+					return nil, false
+				}
+				f, ok := m.Globals[n]
+				if !ok {
+					return nil, false
+				}
+				return func(a py.Tuple, k py.StringDict) (py.Object, error) { return py.Call(f, a, k) }, true
+			}, riskyName(n)})
+		}
+	}
 	// type dictionaries: through an instance, through the class; M__x__ methods through getattr
 	seenType := map[string]bool{}
 	for _, v := range vals {
@@ -401,7 +439,7 @@ func TestC10(t *testing.T) {
 	only := os.Getenv("VERIF_C10_ONLY")
 	maxArity := r.Pick(2, 3)
 	_, vals, _ := c10Universe()
-	r.Extra("rule", fmt.Sprintf("callable universe discovered at run time: every callable in builtins, every entry of every builtin type's attribute table reached through an instance and through the class, "+
+	r.Extra("rule", fmt.Sprintf("callable universe discovered at run time: every callable in builtins and in the Go modules math/string/binascii/array/marshal/glob/time/sys, every entry of every builtin type's attribute table reached through an instance and through the class, "+
 		"every M__x__ method reached with getattr, every value called as a function, and the Go API's unary/binary/ternary operators and protocol functions (%d callables) x all argument tuples "+
 		"of arity 0-%d over %d representative values of every type (ints in both representations incl. +-2**63, nan/inf, non-ASCII strings, nested containers, slices with huge fields, classes, "+
 		"instances with well- and ill-behaved special methods, live/exhausted generators, modules, code objects), plus a keyword-argument form. Oracle: recover() around each call - a Go panic, "+
